@@ -109,7 +109,8 @@ impl OneHopPath {
             flags: HopFieldFlags::empty(),
             cons_ingress: ingress_interface,
             cons_egress: 0,
-            expiration_units: 0,
+            // Expiration is copied from the first hop (as the view and the reference router do)
+            expiration_units: self.hops[0].expiration_units,
             mac: HopFieldMac([0u8; 6]),
         }
         .with_calculated_mac(beta, self.info.timestamp, &forwarding_key);
